@@ -50,3 +50,137 @@ def tie_averaged(ctx, obs, q: str, rule='RANK', need_rank=True):
         obs.ok(rule, q, con, 'rankdata (average) and no ordinal-rank idiom', where(prog, f, f.node))
     elif need_rank:
         obs.unk(rule, q, con, 'no rankdata call and no recognised ranking idiom', where(prog, f, f.node))
+
+
+# ------------------------------------------------------------------------------------------------ RANK-ALL
+def ranked_on_all_paths(ctx, obs, q: str, source_leaf: str = '_parse_input_rdms', rule='RANK-ALL'):
+    """In a rank correlation every dissimilarity vector that reaches the result has been rank-transformed - on EVERY path.
+    A must-analysis over the statements of q (after the helper-inlining pre-pass), states per variable:
+
+        N  not derived from the source vectors      R  derived from ranked vectors only
+        U  derived from un-ranked source vectors    ?  passed through a repo function that may or may not rank
+
+    source call -> U;  rankdata(x) / f(rankdata, .., x) -> R;  other expressions: U if any operand is U, else ? , else R, else N;
+    branches merge to the worst state (U > ? > R > N): ranking in one arm only leaves U.  The returned value must not be U
+    (violation) and is undecided when it is ?."""
+    prog = ctx.prog
+    f = prog.func(q)
+    order = {'N': 0, 'R': 1, '?': 2, 'U': 3}
+    ranks_somewhere = {}
+
+    def callee_ranks(name):
+        if name not in ranks_somewhere:
+            hit = None
+            for gq, g in prog.functions.items():
+                if g.name == name and g.module == f.module and g.cls is None:
+                    hit = any((isinstance(n, ast.Attribute) and n.attr == 'rankdata') or (isinstance(n, ast.Name) and n.id == 'rankdata')
+                              for n in ast.walk(g.node))
+            ranks_somewhere[name] = hit
+        return ranks_somewhere[name]
+
+    def worst(states):
+        states = list(states)
+        return max(states, key=lambda s: order[s]) if states else 'N'
+
+    def ev(e, env):
+        if isinstance(e, ast.Name):
+            return env.get(e.id, 'N')
+        if isinstance(e, ast.Call):
+            leaf = _leaf(e.func)
+            operands = list(e.args) + [k.value for k in e.keywords]
+            if isinstance(e.func, ast.Attribute) and not (isinstance(e.func.value, ast.Name) and e.func.value.id in ('np', 'numpy', 'scipy')):
+                operands.append(e.func.value)
+            st = worst(ev(a, env) for a in operands)
+            if leaf == source_leaf:
+                return 'U'
+            mentions_rank = leaf == 'rankdata' or any(
+                (isinstance(n, ast.Attribute) and n.attr == 'rankdata') or (isinstance(n, ast.Name) and n.id == 'rankdata')
+                for a in operands for n in ast.walk(a))
+            if mentions_rank:
+                return 'R' if st != 'N' else 'N'
+            if isinstance(e.func, ast.Name) and st in ('U', '?'):
+                cr = callee_ranks(leaf)
+                if cr is None and leaf not in ('len', 'int', 'float', 'abs', 'min', 'max', 'sum', 'range', 'tuple', 'list'):
+                    return '?' if st == 'U' else st         # unknown callable
+                if cr:
+                    return '?'
+            return st
+        if isinstance(e, (ast.Lambda, ast.Constant)):
+            return 'N'
+        return worst(ev(c, env) for c in ast.iter_child_nodes(e) if isinstance(c, ast.expr))
+
+    returned = []
+
+    def assign(t, st, env):
+        if isinstance(t, ast.Name):
+            env[t.id] = st
+        elif isinstance(t, (ast.Tuple, ast.List)):
+            for x in t.elts:
+                assign(x, st, env)
+        elif isinstance(t, ast.Starred):
+            assign(t.value, st, env)
+        elif isinstance(t, (ast.Subscript, ast.Attribute)):
+            b = t
+            while isinstance(b, (ast.Subscript, ast.Attribute)):
+                b = b.value
+            if isinstance(b, ast.Name):
+                env[b.id] = worst([env.get(b.id, 'N'), st])
+
+    def merge(a, b):
+        return {k: worst([a.get(k, 'N'), b.get(k, 'N')]) for k in set(a) | set(b)}
+
+    def block(stmts, env):
+        for s in stmts:
+            if isinstance(s, ast.Assign):
+                st = ev(s.value, env)
+                for t in s.targets:
+                    assign(t, st, env)
+            elif isinstance(s, ast.AnnAssign) and s.value is not None:
+                assign(s.target, ev(s.value, env), env)
+            elif isinstance(s, ast.AugAssign):
+                assign(s.target, worst([ev(s.value, env), ev(s.target, env)]), env)
+            elif isinstance(s, ast.Return):
+                if s.value is not None:
+                    returned.append((s, ev(s.value, env)))
+                return env, True
+            elif isinstance(s, ast.If):
+                e1, r1 = block(s.body, dict(env))
+                e2, r2 = block(s.orelse, dict(env))
+                if r1 and r2:
+                    return env, True
+                env = e2 if r1 else e1 if r2 else merge(e1, e2)
+            elif isinstance(s, (ast.For, ast.While)):
+                if isinstance(s, ast.For):
+                    assign(s.target, ev(s.iter, env), env)
+                for _ in range(2):
+                    e1, _r = block(s.body, dict(env))
+                    env = merge(env, e1)
+                e1, _r = block(s.orelse, dict(env))
+                env = merge(env, e1)
+            elif isinstance(s, ast.With):
+                env, r = block(s.body, env)
+                if r:
+                    return env, True
+            elif isinstance(s, ast.Try):
+                e1, _r = block(s.body, dict(env))
+                env = merge(env, e1)
+                for h in s.handlers:
+                    e2, _r = block(h.body, dict(env))
+                    env = merge(env, e2)
+                e3, _r = block(s.finalbody, dict(env))
+                env = merge(env, e3)
+        return env, False
+
+    block(f.node.body, {})
+    con = 'every dissimilarity vector that reaches the result has been rank-transformed, on every path'
+    if not returned:
+        obs.unk(rule, q, con, 'no return statement', where(prog, f, f.node))
+    for s, st in returned:
+        if st == 'U':
+            obs.bad(rule, q, con, f'`{norm(s)[:60]}` is reached by source dissimilarities that were not ranked on some path (e.g. ranking '
+                    f'skipped under a condition): the result then depends on the raw values, not on their order', where(prog, f, s))
+        elif st == 'R':
+            obs.ok(rule, q, con, '', where(prog, f, s))
+        else:
+            obs.unk(rule, q, con, f'`{norm(s)[:60]}`: state {st} (N = no dependence on the source found, ? = passes through a helper that '
+                    f'may rank)', where(prog, f, s))
